@@ -31,18 +31,22 @@ theorem iter_returns_view (s : St K V) (hm : s.metered = false) (lo hi : Option 
             (fun k => (k, view c s k))) := iter_unmetered c s hm lo hi asc
 
 theorem view_set (s : St K V) (hm : s.metered = false) (k : K) (v : V) (hv : v ≠ c.tomb) :
-    (s.set c k v).2 = true ∧ view c (s.set c k v).1 = upd (view c s) k (some v) := by
-  have h := view_set_gen c s hm k v
-  refine ⟨h.1, ?_⟩
-  rw [h.2]
-  simp [dec, hv]
+    (s.set c k v).2 = .ok ∧ view c (s.set c k v).1 = upd (view c s) k (some v) :=
+  view_set_gen c s hm k v hv
 
-/-- the in-band marker: storing the literal TOMBSTONE value is a delete (known finding KF-C09-1:
-    the one value for which "reads return the most recent write" fails) -/
-theorem set_tombstone_is_delete (s : St K V) (hm : s.metered = false) (k : K) :
-    view c (s.set c k c.tomb).1 = upd (view c s) k none := by
-  rw [(view_set_gen c s hm k c.tomb).2]
-  simp [dec]
+/-- the TOMBSTONE marker is reserved: a write of exactly that value is refused with
+    `ErrReservedValue` and changes nothing (before the fix "refuse the tombstone marker as a value"
+    it was silently turned into a delete, the former known finding KF-C09-1) -/
+theorem set_tombstone_refused (s : St K V) (k : K) : s.set c k c.tomb = (s, .errReserved) :=
+  set_tomb c s k
+
+/-- so every write that is accepted is read back: no hypothesis on the value -/
+theorem accepted_set_is_read_back (s : St K V) (hm : s.metered = false) (k : K) (v : V)
+    (h : (s.set c k v).2 = .ok) : ((s.set c k v).1.get c k).2 = some v := by
+  have hv : v ≠ c.tomb := set_ok_ne_tomb c s k v h
+  have hm' : (s.set c k v).1.metered = false := (set_data c s k v).2.trans hm
+  rw [get_unmetered c _ hm', (view_set_gen c s hm k v hv).2]
+  simp [upd]
 
 /-! ## 2. A deleted key reads as absent -/
 
@@ -68,8 +72,12 @@ theorem session_writes_keep_base (s : St K V) (h : s.sess.isSome) (k : K) (v : V
   cases hs : s.sess with
   | none => simp [hs] at h
   | some o =>
-    rw [set_sess c s o hs, del_sess c s o hs]
-    exact ⟨rfl, rfl⟩
+    rw [del_sess c s o hs]
+    refine ⟨?_, rfl⟩
+    by_cases hv : v = c.tomb
+    · rw [hv, set_tomb]
+    · rw [set_sess c s o hs k v hv]
+      rfl
 
 theorem discard_invisible (s : St K V) : view c s.dsess = baseView c s ∧ s.dsess.sess = none := by
   refine ⟨?_, rfl⟩
@@ -209,11 +217,12 @@ theorem gas_monotone (s : St K V) (op : Op K V)
     through to the tree -/
 theorem gas_refusal (s : St K V) (hm : s.metered = true) (hx : s.gas.consumed ≥ s.gas.limit)
     (hs : s.sess = none) (k : K) (v : V) :
-    s.set c k v = (s, false) ∧ s.del c k = s ∧ s.get c k = (s, s.tree.get k) ∧
+    (v ≠ c.tomb → s.set c k v = (s, .errGas)) ∧ s.del c k = s ∧ s.get c k = (s, s.tree.get k) ∧
     s.has c k = (s, s.tree.has k) := by
   have hg : ∀ cost, s.gas.consumeStrict cost = none := fun cost => consumeStrict_none _ cost hx
   refine ⟨?_, ?_, ?_, ?_⟩
-  · simp [St.set, hs, hm, hg]
+  · intro hv
+    simp [St.set, hs, hm, hg, hv]
   · simp [St.del, hs, hm, hg]
   · simp [St.get, St.cacheGet, hs, hm, hg]
   · simp [St.has, St.cacheHas, hs, hm, hg]
